@@ -207,14 +207,18 @@ def build(S: Sources) -> Unit:
         KaniHarness("verif_c15_counters::collection_set_counter_own_kind_only", "complete", covers="CounterSet::to_collection + CounterCollection::set_counter (Bencher::counter)"),
         KaniHarness("verif_c15_ignore::ignore_decision", "complete", covers="RunIgnored::should_run, Divan::should_ignore"),
     ]
+    errs = []
+    from units import cli_common
+    vfiles = guarded(lambda: cli_common.cfg_files(S, {"C15"}, "c15"), errs, [])
     return Unit(
         property_id="C15",
-        verus=[],
+        build_errors=errs,
+        verus=vfiles,
         kani=[KaniSpec(injections={OPT: KANI_OPT, COLL: KANI_COLL, DIVAN: KANI_DIVAN}, harnesses=hs),
               E.entry_kani("C15", only={"ignore_decision", "thread_counts_two", "thread_counts_one", "runner_over_entry_both", "runner_over_entry_entry_only"},
                            tiers={})],
         undecided_clauses=[
-            "command-line flag vs DIVAN_* environment variable vs builder call populating the runner's options (clap argument parsing in Divan::config_with_args / cli.rs): not under contract",
+            "clap itself (src/cli.rs: flag names, value parsers, DIVAN_* env fallbacks, value delimiters): ASSUMED to deliver the parsed values; what config_with_args does with them is under contract (Verus, region)",
             "attribute syntax -> BenchOptions (proc macro in macros/src/attr_options.rs): not under contract",
             "documented defaults when no level sets an option (consumed at many sites)",
         ],
